@@ -30,3 +30,35 @@ func init() {
 		Rules:       []*Rule{ruleOpTable, ruleNarrow, ruleJumpPatch, exhaustRule("Compile", 20)},
 	})
 }
+
+func init() {
+	Register(&Property{
+		ID: "C09",
+		Explanation: "Decides the copy clause structurally: value objects of basic type are never modified after construction (R-IMMUT: no field " +
+			"store outside construction, no call of value.Set), so sharing an object between bindings is unobservable and 'a later change to one " +
+			"variable never shows through another' holds wherever the evaluator does or does not copy; arrays and maps are returned by identity by " +
+			"copyOrRef; slicing, copying, concatenation, repetition, literals and the map ranger allocate their own backing storage and repetition " +
+			"copies through deepCopy (R-FRESH, SSA origin of the stored slice).",
+		NotDecided:  "That Slice copies the right elements (value-level).",
+		Assumptions: []string{"no reflection/unsafe reaches evaluator values (checked by R-TIMESOURCE for unsafe)"},
+		Rules:       []*Rule{ruleImmut, ruleFresh},
+	})
+	Register(&Property{
+		ID: "C12",
+		Explanation: "Decides the representation discipline of insertion-ordered maps: the Go map and the key-order slice are written only inside " +
+			"SetKey/Delete/Set and constructors; SetKey stores on every path and appends only new keys; Delete removes from both; printing and " +
+			"iteration read Order, equality does not, lookups/has/len read Pairs, del goes through Delete (R-MAPENC); iteration uses a private " +
+			"snapshot (R-FRESH); no observable depends on Go map order (R-MAPRANGE).",
+		NotDecided:  "The mutators' arithmetic under arbitrary operation sequences (which index is spliced), panics' text.",
+		Assumptions: []string{},
+		Rules:       []*Rule{ruleMapEnc, ruleFresh, ruleMapRange},
+	})
+	Register(&Property{
+		ID: "C11",
+		Explanation: "Decides that strings are measured, indexed, sliced and iterated by code point in the evaluator (R-RUNES) and that a user " +
+			"number becomes an index only through normalizeIndex whose float→int conversion is NaN/Inf/fraction safe (R-F2I).",
+		NotDecided:  "The bounds predicate itself (-n ≤ i < n, a ≤ b ≤ n) and which element is returned.",
+		Assumptions: []string{},
+		Rules:       []*Rule{runesRule("pkg/evaluator", "stringVal", 4)},
+	})
+}
